@@ -240,7 +240,10 @@ func c14XElem(r *rand.Rand, o C14XMLOpts, depth int, name string, tags map[strin
 		for i := 0; i < nk; i++ {
 			cn := c14XMLNames[r.IntN(len(c14XMLNames))]
 			if usedK[cn] {
-				continue
+				if r.IntN(2) == 0 {
+					continue
+				}
+				tags["nonadjacent_repeat"] = true // <item/><name/><item/>: the same name again after another element
 			}
 			usedK[cn] = true
 			reps := 1
